@@ -9,6 +9,7 @@ import (
 	"fmt"
 	"os"
 	"sort"
+	"strconv"
 	"strings"
 	"time"
 
@@ -162,6 +163,13 @@ func (m *Machine) intrinsic(fn *ssa.Function, args []Val, caller *frame) handler
 		}
 	case "vSummary":
 		return func() Val { m.summary = args[0].(*Term).IsTrue(); return nil }
+	case "vReplayDraws":
+		// the following draws re-use the values of draws from..(current count-1)
+		return func() Val {
+			m.replayIdx = argInt(args[0])
+			m.replayEnd = len(m.draws)
+			return nil
+		}
 	case "vDrawCount":
 		return func() Val { return bv64(len(m.draws)) }
 	case "vDraw":
@@ -249,6 +257,8 @@ func (m *Machine) intrinsic(fn *ssa.Function, args []Val, caller *frame) handler
 			}
 			return mkStr(m.outputs[i].Sink + "|" + m.outputs[i].Text)
 		}
+	case "vRunMain":
+		return func() Val { return m.runMain(args[0].(SliceV), args[1].(*StrV), caller) }
 	case "vSecret":
 		return func() Val { return nil }
 	case "vSharedWriteText":
@@ -332,6 +342,14 @@ func (m *Machine) assert(c *Term, msg string) {
 	if c.IsTrue() {
 		m.res.TrivAssert++
 		return
+	}
+	if len(m.alias) > 0 {
+		// rewrite the goal with the variable equalities of the path condition
+		if c2 := Subst(c, m.alias, map[*Term]*Term{}); c2.IsTrue() {
+			m.res.TrivAssert++
+			m.res.Notes["goal-closed-by-variable-equalities"] = "yes"
+			return
+		}
 	}
 	neg := Not(c)
 	res := "unknown"
@@ -563,4 +581,49 @@ func sortedKeys(m map[string]int) []string {
 	}
 	sort.Strings(ks)
 	return ks
+}
+
+// runMain executes the program's main() with os.Args set to argv and, when
+// file is non-empty, every file read returning that content. It returns what
+// the process wrote to standard output, what it wrote to stderr/log, and its
+// exit status.
+func (m *Machine) runMain(argv SliceV, file *StrV, caller *frame) Val {
+	osPkg := m.prog.pkgs["os"]
+	g := osPkg.Members["Args"].(*ssa.Global)
+	m.storeCell(m.globalCell(g), argv, "os.Args")
+	if file.Len() > 0 {
+		m.fileContent, m.fileSet = file, true
+	} else {
+		m.fileContent, m.fileSet = nil, false
+	}
+	mainFn := m.prog.main.Func("main")
+	from := len(m.outputs)
+	exit := 0
+	func() {
+		defer func() {
+			if r := recover(); r != nil {
+				if ap, ok := r.(*abortPath); ok && ap.kind == "exit" {
+					exit, _ = strconv.Atoi(ap.why)
+					return
+				}
+				panic(r)
+			}
+		}()
+		m.callFn(mainFn, nil, nil, caller, nil)
+	}()
+	stdout, stderr := &StrV{}, &StrV{}
+	for _, ev := range m.outputs[from:] {
+		s := ev.Str
+		if s == nil {
+			s = &StrV{S: ev.Text, T: ev.Tainted}
+		}
+		switch {
+		case strings.HasPrefix(ev.Sink, "stdout"):
+			stdout = strConcat(stdout, s)
+		case ev.Sink == "exit":
+		default:
+			stderr = strConcat(stderr, s)
+		}
+	}
+	return TupleV{stdout, stderr, bv64(exit)}
 }
